@@ -25,8 +25,9 @@ def _cache_integral_and_mean(self):
                 warnings.simplefilter("ignore")
                 # integral calculated this way to force an overflow error if required
                 # pandas.TimedeltaIndex * int is not raising an overflow error when it ideally should
+                # values taken as floats: integer-typed values times integer lengths would wrap silently beyond int64
                 integral = np.array(
-                    [x * y for x, y in zip(value_sums.index, value_sums)]
+                    [float(x) * y for x, y in zip(value_sums.index, value_sums)]
                 ).sum()
                 mean = integral / value_sums.sum()
                 self._integral_and_mean = (integral, mean)
